@@ -288,7 +288,7 @@ Qed.
 Print Assumptions chunk_ascii_spec.
 
 (* ------------------------------------------------------------------ *)
-(* 4. leading_whitespace: what it really computes                      *)
+(* 4. nonzero_lanes and leading_whitespace (fixed upstream version)    *)
 (* ------------------------------------------------------------------ *)
 Fixpoint take_while {A : Type} (p : A -> bool) (l : list A) : list A :=
   match l with
@@ -311,34 +311,103 @@ Proof.
   rewrite (E b Hb), IH. reflexivity.
 Qed.
 
-(* the lane function of (v ^ rep 9) & (v ^ rep 10) *)
-Definition lwf (b : N) : N := N.land (N.lxor b 9) (N.lxor b 10).
+Lemma lor_lt256 a b : a < 256 -> b < 256 -> N.lor a b < 256.
+Proof.
+  intros Ha Hb. apply lt256_of_log2. rewrite N.log2_lor.
+  pose proof (log2_lt8 a Ha). pose proof (log2_lt8 b Hb). lia.
+Qed.
 
-Lemma lw_lane_fact :
-  forallb (fun b => Bool.eqb (lwf b =? 0) ((8 <=? b) && (b <=? 11))) all_bytes = true.
+Lemma lor_lanes a a' b b' :
+  a < 256 -> b < 256 ->
+  N.lor (a + 256 * a') (b + 256 * b') = N.lor a b + 256 * N.lor a' b'.
+Proof.
+  intros Ha Hb. apply N.bits_inj. intro n.
+  rewrite N.lor_spec, !lane_bits by auto using lor_lt256.
+  destruct (n <? 8); now rewrite N.lor_spec.
+Qed.
+
+(* no carry between lanes: adding lane-wise sums that stay below 256 *)
+Lemma add_lanes a a' b b' : (a + 256 * a') + (b + 256 * b') = (a + b) + 256 * (a' + b').
+Proof. lia. Qed.
+
+Lemma map_wf (g : N -> N) bs :
+  (forall b, b < 256 -> g b < 256) -> Forall (fun b => b < 256) bs ->
+  Forall (fun b => b < 256) (map g bs).
+Proof. intros G H. induction H; cbn [map]; constructor; auto. Qed.
+
+Lemma map_ext_wf (g h : N -> N) bs :
+  (forall b, b < 256 -> g b = h b) -> Forall (fun b => b < 256) bs -> map g bs = map h bs.
+Proof. intros E H. induction H; cbn [map]; [reflexivity|]. now rewrite E, IHForall. Qed.
+
+(* land of two lane-wise images of the same byte list *)
+Lemma land_map_lanes (f g : N -> N) bs :
+  (forall b, b < 256 -> f b < 256) -> (forall b, b < 256 -> g b < 256) ->
+  Forall (fun b => b < 256) bs ->
+  N.land (le_word (length bs) (map f bs)) (le_word (length bs) (map g bs))
+  = le_word (length bs) (map (fun b => N.land (f b) (g b)) bs).
+Proof.
+  intros F G H. induction H as [|b r Hb Hr IH]; [reflexivity|].
+  cbn [length map le_word]. rewrite land_lanes by auto. now rewrite IH.
+Qed.
+
+(* ---- nonzero_lanes ---- *)
+Definition nzadd (b : N) : N := N.land b 127 + 127.
+Definition nzlane (b : N) : N := if b =? 0 then 0 else 128.
+
+Lemma nzadd_fact : forallb (fun b => nzadd b <? 256) all_bytes = true.
 Proof. vm_compute. reflexivity. Qed.
 
-(* DEFECT: the lane is zero for 0x08 and 0x0b as well, not only for \t and \n *)
-Lemma lw_lane_zero_iff : forall b, b < 256 ->
-  (N.land (N.lxor b 9) (N.lxor b 10) =? 0) = (8 <=? b) && (b <=? 11).
-Proof. intros b H. apply eqb_prop. exact (byte_forall _ lw_lane_fact b H). Qed.
-Print Assumptions lw_lane_zero_iff.
+Lemma nzadd_lt256 b : b < 256 -> nzadd b < 256.
+Proof. intros H. apply N.ltb_lt. exact (byte_forall _ nzadd_fact b H). Qed.
 
-Lemma lwf_lt256 b : b < 256 -> lwf b < 256.
-Proof. intros H. apply land_lt256, lxor_lt256; [exact H|reflexivity]. Qed.
+(* per-lane fact: the high bit of ((b & 0x7f) + 0x7f) | b is set iff b <> 0 *)
+Lemma nz_lane_fact :
+  forallb (fun b => N.land (N.lor (N.land b 127 + 127) b) 128 =? (if b =? 0 then 0 else 128))
+          all_bytes = true.
+Proof. vm_compute. reflexivity. Qed.
 
-Lemma lw_word_lanes bs : Forall (fun b => b < 256) bs ->
-  N.land (N.lxor (le_word (length bs) bs) (le_word (length bs) (repeat 9 (length bs))))
-         (N.lxor (le_word (length bs) bs) (le_word (length bs) (repeat 10 (length bs))))
-  = le_word (length bs) (map lwf bs).
+Lemma nz_lane b : b < 256 -> N.land (N.lor (nzadd b) b) 128 = nzlane b.
+Proof. intros H. apply N.eqb_eq. exact (byte_forall _ nz_lane_fact b H). Qed.
+
+(* the addition is lane-wise: (b & 0x7f) + 0x7f <= 0xfe never carries *)
+Lemma nz_add_lanes bs : Forall (fun b => b < 256) bs ->
+  N.land (le_word (length bs) bs) (le_word (length bs) (repeat 127 (length bs)))
+  + le_word (length bs) (repeat 127 (length bs))
+  = le_word (length bs) (map nzadd bs).
 Proof.
-  induction bs as [|b r IH]; intros H.
-  - reflexivity.
-  - inversion H; subst. cbn [length repeat le_word map].
-    rewrite !lxor_lanes by (assumption || reflexivity).
-    rewrite land_lanes by (apply lxor_lt256; (assumption || reflexivity)).
-    rewrite IH by assumption. reflexivity.
+  intros H. induction H as [|b r Hb Hr IH]; [reflexivity|].
+  cbn [length repeat map le_word]. rewrite land_lanes by (assumption || reflexivity).
+  rewrite add_lanes, IH. reflexivity.
 Qed.
+
+Lemma nz_or_and_lanes bs : Forall (fun b => b < 256) bs ->
+  N.land (N.lor (le_word (length bs) (map nzadd bs)) (le_word (length bs) bs))
+         (le_word (length bs) (repeat 128 (length bs)))
+  = le_word (length bs) (map nzlane bs).
+Proof.
+  intros H. induction H as [|b r Hb Hr IH]; [reflexivity|].
+  cbn [length repeat map le_word].
+  rewrite lor_lanes by auto using nzadd_lt256.
+  rewrite land_lanes by (auto using lor_lt256, nzadd_lt256; reflexivity).
+  rewrite IH, nz_lane by assumption. reflexivity.
+Qed.
+
+Lemma nonzero_lanes_nzlane bs : bytes8 bs ->
+  nonzero_lanes (le_word 8 bs) = le_word 8 (map nzlane bs).
+Proof.
+  intros [Hl Hf]. unfold nonzero_lanes, wadd, w64.
+  rewrite !repeat_byte_lanes by reflexivity.
+  pose proof (nz_add_lanes bs Hf) as HA. pose proof (nz_or_and_lanes bs Hf) as HB.
+  rewrite Hl in HA, HB. rewrite HA.
+  rewrite N.mod_small; [exact HB|].
+  change W64 with (MM 8). apply le_word_lt. apply map_wf; [exact nzadd_lt256|exact Hf].
+Qed.
+
+(* bit 8i+7 is set iff lane i is nonzero, every other bit is clear *)
+Theorem nonzero_lanes_spec : forall bs, bytes8 bs ->
+  nonzero_lanes (le_word 8 bs) = le_word 8 (map (fun b => if b =? 0 then 0 else 128) bs).
+Proof. exact nonzero_lanes_nzlane. Qed.
+Print Assumptions nonzero_lanes_spec.
 
 (* trailing zeros, bit by bit *)
 Lemma tz_fuel_double f x : tz_fuel (S f) (2 * x) = 1 + tz_fuel f x.
@@ -418,32 +487,78 @@ Proof.
     assert (b = 0) by lia. subst b. cbn [N.eqb]. f_equal. apply IH; [assumption|lia|lia].
 Qed.
 
+(* ---- leading_whitespace ---- *)
+(* the lane of nonzero_lanes (v ^ rep 9) & nonzero_lanes (v ^ rep 10) *)
+Definition lwl (b : N) : N := N.land (nzlane (N.lxor b 9)) (nzlane (N.lxor b 10)).
+
+Lemma lwl_fact :
+  forallb (fun b => Bool.eqb (lwl b =? 0) ((b =? 9) || (b =? 10)) && (lwl b <? 256))
+          all_bytes = true.
+Proof. vm_compute. reflexivity. Qed.
+
+(* the lane is clear exactly for \t and \n *)
+Lemma lwl_zero_iff b : b < 256 -> (lwl b =? 0) = (b =? 9) || (b =? 10).
+Proof.
+  intros H. pose proof (byte_forall _ lwl_fact b H) as F. cbv beta in F.
+  apply andb_prop in F. apply eqb_prop, F.
+Qed.
+
+Lemma lwl_lt256 b : b < 256 -> lwl b < 256.
+Proof.
+  intros H. pose proof (byte_forall _ lwl_fact b H) as F. cbv beta in F.
+  apply andb_prop in F. apply N.ltb_lt, F.
+Qed.
+
+Lemma nzlane_lt256 b : nzlane b < 256.
+Proof. unfold nzlane. destruct (b =? 0); reflexivity. Qed.
+
+Lemma lw_word_lanes bs : bytes8 bs ->
+  N.land (nonzero_lanes (N.lxor (le_word 8 bs) (repeat_byte lw_byte1)))
+         (nonzero_lanes (N.lxor (le_word 8 bs) (repeat_byte lw_byte2)))
+  = le_word 8 (map lwl bs).
+Proof.
+  intros [Hl Hf]. unfold lw_byte1, lw_byte2.
+  rewrite !repeat_byte_lanes by reflexivity.
+  pose proof (lxor_repeat_lanes 9 bs eq_refl Hf) as H9.
+  pose proof (lxor_repeat_lanes 10 bs eq_refl Hf) as H10.
+  rewrite Hl in H9, H10. rewrite H9, H10.
+  rewrite !nonzero_lanes_nzlane
+    by (split; [now rewrite map_length|now apply map_lxor_wf]).
+  rewrite !map_map.
+  pose proof (land_map_lanes (fun b => nzlane (N.lxor b 9)) (fun b => nzlane (N.lxor b 10)) bs
+                (fun b _ => nzlane_lt256 _) (fun b _ => nzlane_lt256 _) Hf) as HL.
+  rewrite Hl in HL. exact HL.
+Qed.
+
 Theorem leading_whitespace_spec : forall bs, bytes8 bs ->
   leading_whitespace (le_word 8 bs)
-  = N.of_nat (length (take_while (fun b => (8 <=? b) && (b <=? 11)) bs)).
+  = N.of_nat (length (take_while (fun b => (b =? 9) || (b =? 10)) bs)).
 Proof.
-  intros bs [Hl Hf]. unfold leading_whitespace, lw_byte1, lw_byte2.
-  rewrite !repeat_byte_lanes by reflexivity.
-  pose proof (lw_word_lanes bs Hf) as HW. rewrite Hl in HW. rewrite HW. clear HW.
-  assert (Hmf : Forall (fun b => b < 256) (map lwf bs)).
-  { clear Hl. induction Hf; cbn [map]; constructor; auto using lwf_lt256. }
-  assert (Hml : length (map lwf bs) = 8%nat) by now rewrite map_length.
-  rewrite <- (take_while_ext_wf (fun b => lwf b =? 0)) by (exact lw_lane_zero_iff || exact Hf).
-  rewrite <- (take_while_map (fun c => c =? 0) lwf bs).
-  unfold trailing_zeros. destruct (N.eqb_spec (le_word 8 (map lwf bs)) 0) as [E|E].
+  intros bs Hb. unfold leading_whitespace. rewrite (lw_word_lanes bs Hb).
+  destruct Hb as [Hl Hf].
+  assert (Hmf : Forall (fun b => b < 256) (map lwl bs))
+    by (apply map_wf; [exact lwl_lt256|exact Hf]).
+  assert (Hml : length (map lwl bs) = 8%nat) by now rewrite map_length.
+  rewrite <- (take_while_ext_wf (fun b => lwl b =? 0)) by (exact lwl_zero_iff || exact Hf).
+  rewrite <- (take_while_map (fun c => c =? 0) lwl bs).
+  unfold trailing_zeros. destruct (N.eqb_spec (le_word 8 (map lwl bs)) 0) as [E|E].
   - rewrite (zero_list 8 _ Hmf Hml E), Hml. reflexivity.
-  - pose proof (tz_list (map lwf bs) Hmf) as T. rewrite Hml in T.
+  - pose proof (tz_list (map lwl bs) Hmf) as T. rewrite Hml in T.
     change (8 * 8)%nat with 64%nat in T. apply T, E.
 Qed.
 Print Assumptions leading_whitespace_spec.
 
-(* the naive "\t or \n" specification is refuted: 0x08 is skipped as whitespace *)
-Theorem leading_whitespace_not_tab_newline : exists bs, bytes8 bs /\
-  leading_whitespace (le_word 8 bs)
-  <> N.of_nat (length (take_while (fun b => (b =? 9) || (b =? 10)) bs)).
+(* word form: the result is 8 when all eight lanes are whitespace *)
+Theorem leading_whitespace_word : forall w, w < 2 ^ 64 ->
+  leading_whitespace w
+  = N.of_nat (length (take_while (fun b => (b =? 9) || (b =? 10)) (word_bytes 8 w))).
 Proof.
-  exists [8; 97; 98; 99; 61; 49; 32; 32]. split.
-  - split; [reflexivity|]. repeat constructor.
-  - vm_compute. discriminate.
+  intros w Hw. rewrite <- (le_word_word_bytes8 w Hw) at 1.
+  apply leading_whitespace_spec, word_bytes_bytes8.
 Qed.
-Print Assumptions leading_whitespace_not_tab_newline.
+Print Assumptions leading_whitespace_word.
+
+(* regression example for the former defect: 0x08 is no longer skipped *)
+Example leading_whitespace_0x08 :
+  leading_whitespace (le_word 8 [8; 97; 98; 99; 61; 49; 32; 32]) = 0.
+Proof. vm_compute. reflexivity. Qed.
